@@ -15,14 +15,13 @@ import re
 from . import common as C
 
 THEOREMS = [
-    "newType_fresh", "size_mono_canon", "named_distinct",
-    "canon_same_iff_key", "canon_identity_array", "canon_identity_map", "canon_identity_ptr", "canon_identity_slice",
-    "canon_identity_chan", "canon_identity_func", "canon_identity_struct_partial",
+    "newType_fresh", "size_mono_runOps", "named_distinct",
+    "WF_canon", "canon_same_iff_key", "key_iff_identical", "canon_identity_partial", "canon_identity_struct_partial",
     "canon_identity_counterexample_embedded", "canon_identity_counterexample_tag", "canon_identity_counterexample_pkgpath",
     "methodset_counterexample_ambiguous", "methodset_counterexample_seen", "methodset_counterexample_ptrshadow",
     "methodset_counterexample_fieldhide", "methodset_counterexample_protoname", "methodset_counterexample_namedptr",
-    "methodset_correct_partial",
-    "assert_counterexample_memo", "assert_correct_partial", "assert_concrete",
+    "methodset_counterexample_pkgname",
+    "assert_counterexample_memo", "assertType_step", "assert_correct_partial", "assert_concrete",
     "iface_eq_counterexample", "iface_eq_partial",
 ]
 
@@ -631,6 +630,311 @@ def run_families(chk, fams, tie):
                 chk.notes.append({"tie": t, "tie_break_family_line": lines[info[e["op"]][1]]})
 
 
+# ----------------------------------------------------------------------------------------------
+# generated Go programs (tie b)
+# ----------------------------------------------------------------------------------------------
+
+PROG_SIG = dict(METHODSET_SIG)
+SIG_RECV = "C09 dispatch struct-value-receiver-shared-through-interface-or-method-value"
+PROG_SIG.update({"memo": SIG_MEMO, "canon-embedded": SIG_EMB, "canon-tag": SIG_TAG, "cmp": SIG_CMP, "recvcopy": SIG_RECV})
+
+
+def gen_program(rng, mode):
+    """Returns (source, tainted_labels). Clean discipline: the selector sets (fields and methods at any depth) of the
+    embedded fields of one struct are pairwise disjoint; own pointer-receiver methods never reuse a promoted name; field
+    names and method names come from disjoint pools; so Go's method sets contain no ambiguity, and shadowing happens only
+    by depth with value receivers. A non-clean mode injects exactly one construct of its defect class; every line about
+    a type that contains it is 'tainted'."""
+    n = rng.randrange(3, 7)
+    mpool = ["M", "N", "P", "m", "q"]
+    if mode == "protoname":
+        mpool = ["M", "N"] + rng.sample(PROTO, 2)
+    types = []      # dict: name, kind(struct/int), emb [(j, byptr)], vm [names], pm [names], sel set, taint
+    for i in range(n):
+        t = {"name": "T%d" % i, "i": i, "emb": [], "vm": [], "pm": [], "taint": False}
+        t["kind"] = "struct" if (i > 0 and rng.random() < 0.85) or rng.random() < 0.6 else "int"
+        sel = set()
+        if t["kind"] == "struct":
+            sel.add("c%d" % i)
+            for j in rng.sample(range(i), min(i, rng.choice([0, 1, 1, 2, 2]))):
+                e = types[j]
+                if e["sel"] & sel or e["name"] in sel:
+                    continue
+                t["emb"].append((j, rng.random() < 0.4))
+                sel |= e["sel"] | {e["name"]}
+        promoted = set(sel)
+        for nm in rng.sample(mpool, rng.choice([0, 1, 1, 2, 3])):
+            if t["kind"] == "struct" and rng.random() < 0.4 and nm not in promoted:
+                t["pm"].append(nm)
+            else:
+                t["vm"].append(nm)
+            sel.add(nm)
+        t["sel"] = sel
+        types.append(t)
+    extra_decl, extra_main, tainted = [], [], set()
+    src = ["package main", ""]
+
+    def mcode(i, nm):
+        return 1000 * (i + 1) + 10 * (sum(map(ord, nm)) % 97)
+
+    def emit_type(t):
+        i = t["i"]
+        if t["kind"] == "struct":
+            fs = ["c%d int" % i] + [("*" if bp else "") + types[j]["name"] for (j, bp) in t["emb"]] + t.get("extra_fields", [])
+            src.append("type %s struct { %s }" % (t["name"], "; ".join(fs)))
+            for nm in t["vm"]:
+                if mode == "recvcopy":   # the receiver is a copy in Go: the increment must stay invisible to the caller
+                    src.append("func (r %s) %s() int { r.c%d++; return %d + r.c%d }" % (t["name"], nm, i, mcode(i, nm), i))
+                else:
+                    src.append("func (r %s) %s() int { return %d + r.c%d }" % (t["name"], nm, mcode(i, nm), i))
+            for nm in t["pm"]:
+                src.append("func (r *%s) %s() int { r.c%d++; return %d + r.c%d }" % (t["name"], nm, i, mcode(i, nm), i))
+        else:
+            src.append("type %s int" % t["name"])
+            for nm in t["vm"]:
+                src.append("func (r %s) %s() int { return %d + int(r) }" % (t["name"], nm, mcode(i, nm)))
+
+    # defect injections (one per program)
+    if mode == "amb":
+        cands = [(a, b) for a in types for b in types if a["i"] < b["i"] and (set(a["vm"]) & set(b["vm"]))]
+        if not cands:
+            a = types[0]
+            b = types[-1]
+            nm = "M"
+            for t in (a, b):
+                if nm not in t["vm"] and nm not in t["pm"]:
+                    t["vm"].append(nm)
+                    t["sel"].add(nm)
+                elif nm in t["pm"]:
+                    t["pm"].remove(nm); t["vm"].append(nm)
+            cands = [(a, b)]
+        a, b = rng.choice(cands)
+        t = {"name": "T%d" % n, "i": n, "kind": "struct", "emb": [(a["i"], False), (b["i"], rng.random() < 0.3)], "vm": [], "pm": [],
+             "sel": a["sel"] | b["sel"], "taint": True}
+        types.append(t)
+    elif mode == "ptrshadow":
+        e = rng.choice([t for t in types if t["vm"]] or [types[0]])
+        if not e["vm"]:
+            e["vm"].append("M"); e["sel"].add("M")
+        t = {"name": "T%d" % n, "i": n, "kind": "struct", "emb": [(e["i"], False)], "vm": [], "pm": [rng.choice(e["vm"])],
+             "sel": set(e["sel"]), "taint": True}
+        types.append(t)
+    elif mode == "fieldhide":
+        e = rng.choice([t for t in types if [m for m in t["vm"] if m[0].isupper()]] or [types[0]])
+        ups = [m for m in e["vm"] if m[0].isupper()]
+        if not ups:
+            e["vm"].append("M"); e["sel"].add("M"); ups = ["M"]
+        t = {"name": "T%d" % n, "i": n, "kind": "struct", "emb": [(e["i"], False)], "vm": [], "pm": [],
+             "extra_fields": ["%s int" % rng.choice(ups)], "sel": set(e["sel"]), "taint": True}
+        types.append(t)
+    elif mode == "protoname":
+        for t in types:
+            if set(t["vm"] + t["pm"]) & set(PROTO):
+                t["taint"] = True
+        if not any(t["taint"] for t in types):
+            types[0]["vm"].append("toString"); types[0]["sel"].add("toString"); types[0]["taint"] = True
+    # taint propagates to every type that embeds a tainted one
+    for t in types:
+        if any(types[j]["taint"] for (j, _) in t["emb"]):
+            t["taint"] = True
+    for t in types:
+        emit_type(t)
+    # interfaces
+    names = sorted(set(m for t in types for m in t["vm"] + t["pm"])) or ["M"]
+    ifaces = []
+    for k in range(rng.choice([2, 3, 4])):
+        ms = sorted(rng.sample(names, min(len(names), rng.choice([1, 1, 2, 3]))))
+        if rng.random() < 0.15:
+            ms = sorted(set(ms + ["Zz"]))
+        ifaces.append(ms)
+        src.append("type I%d interface { %s }" % (k, "; ".join("%s() int" % m for m in ms)))
+    if len(ifaces) >= 2:
+        k = len(ifaces)
+        extra = sorted(set(ifaces[0]) | {rng.choice(names)})
+        src.append("type I%d interface { I0; %s() int }" % (k, [m for m in extra if m not in ifaces[0]][0] if [m for m in extra if m not in ifaces[0]] else ifaces[0][0]))
+        ifaces.append(extra)
+
+    def mk(t):
+        if t["kind"] == "int":
+            return "%s(%d)" % (t["name"], t["i"] + 1)
+        parts = []
+        for (j, bp) in t["emb"]:
+            e = types[j]
+            v = mk(e)
+            if bp:
+                v = "&" + v if e["kind"] == "struct" else "func() *%s { x := %s; return &x }()" % (e["name"], v)
+            parts.append("%s: %s" % (e["name"], v))
+        return "%s{%s}" % (t["name"], ", ".join(parts))
+
+    src.append("")
+    src.append("func probe(label string, v interface{}) {")
+    for k, ms in enumerate(ifaces):
+        calls = "".join(", x.%s()" % m for m in ms)
+        negs = "".join(", -1" for m in ms)
+        src.append("\tif x, ok := v.(I%d); ok { println(label, \"I%d\", true%s) } else { println(label, \"I%d\", false%s) }" % (k, k, calls, k, negs))
+    # inline interface with one method, and a type switch over interfaces then concrete types
+    m0 = names[0]
+    src.append("\tif x, ok := v.(interface{ %s() int }); ok { println(label, \"inline\", true, x.%s()) } else { println(label, \"inline\", false, -1) }" % (m0, m0))
+    src.append("\tswitch v.(type) {")
+    order = list(range(len(ifaces)))
+    rng.shuffle(order)
+    for k in order[:2]:
+        src.append("\tcase I%d: println(label, \"switch\", \"I%d\")" % (k, k))
+    for t in types:
+        src.append("\tcase %s: println(label, \"switch\", \"%s\")" % (t["name"], t["name"]))
+        if t["kind"] == "struct":
+            src.append("\tcase *%s: println(label, \"switch\", \"*%s\")" % (t["name"], t["name"]))
+    src.append("\tdefault: println(label, \"switch\", \"default\")")
+    src.append("\t}")
+    src.append("}")
+    src.append("")
+    main = ["func main() {"]
+    for t in types:
+        lab = t["name"]
+        if t["taint"]:
+            tainted.add(lab)
+            tainted.add("*" + lab)
+        main.append("\tv%d := %s" % (t["i"], mk(t)))
+        main.append("\tprobe(\"%s\", v%d)" % (lab, t["i"]))
+        if t["kind"] == "struct":
+            main.append("\tprobe(\"*%s\", &v%d)" % (lab, t["i"]))
+            main.append("\tprintln(\"%s\", \"count\", v%d.c%d)" % (lab, t["i"], t["i"]))
+    # dispatch: promoted calls, method values, method expressions, receiver copied or shared
+    for t in types:
+        if t["kind"] != "struct":
+            continue
+        i = t["i"]
+        if t["taint"]:
+            continue      # selectors may be ambiguous / hidden there: would not compile
+        # all methods reachable without ambiguity under the discipline: own + promoted (own shadow promoted)
+        reach = {}
+        def collect(u, path, depth):
+            for nm in u["vm"]:
+                reach.setdefault(nm, (depth, path, u, False)) if nm not in reach or reach[nm][0] > depth else None
+            for nm in u["pm"]:
+                reach.setdefault(nm, (depth, path, u, True)) if nm not in reach or reach[nm][0] > depth else None
+            for (j, bp) in u["emb"]:
+                collect(types[j], path + [types[j]["name"]], depth + 1)
+        collect(t, [], 0)
+        for nm, (depth, path, u, isptr) in sorted(reach.items()):
+            if rng.random() < 0.6:
+                main.append("\tprintln(\"%s\", \"call\", \"%s\", v%d.%s(), v%d.%s())" % (t["name"], nm, i, nm, i, nm))
+            if rng.random() < 0.4:
+                main.append("\t{ f := v%d.%s; println(\"%s\", \"mval\", \"%s\", f(), f()) }" % (i, nm, t["name"], nm))
+            if rng.random() < 0.4:
+                if isptr or any(bp for (j, bp) in t["emb"]) and depth > 0:
+                    main.append("\t{ g := (*%s).%s; println(\"%s\", \"mexpr\", \"%s\", g(&v%d)) }" % (t["name"], nm, t["name"], nm, i))
+                else:
+                    main.append("\t{ g := %s.%s; println(\"%s\", \"mexpr\", \"%s\", g(v%d)) }" % (t["name"], nm, t["name"], nm, i))
+            if u["kind"] == "struct":
+                sel = ".".join(["v%d" % i] + path + ["c%d" % u["i"]])
+                main.append("\tprintln(\"%s\", \"after\", \"%s\", %s)" % (t["name"], nm, sel))
+        # interface holding a pointer shares the receiver, holding a value copies it
+        main.append("\t{ var e interface{} = &v%d; _ = e; w := v%d; var f interface{} = w; probe(\"%s#copy\", f); println(\"%s\", \"copy\", w.c%d) }" % (i, i, t["name"], t["name"], i))
+        if t["taint"]:
+            tainted.add(t["name"] + "#copy")
+    # interface equality
+    for _ in range(3):
+        a, b = rng.choice(types), rng.choice(types)
+        main.append("\tprintln(\"eq\", \"%s\", \"%s\", interface{}(%s) == interface{}(%s))" % (a["name"], b["name"], mk(a), mk(b)))
+    # mode specific tails
+    if mode == "namedptr":
+        t = rng.choice([t for t in types if t["kind"] == "struct"] or [None])
+        if t is not None:
+            src.insert(2, "type Q *%s" % t["name"])
+            main.append("\tprobe(\"Q\", Q(&v%d))" % t["i"])
+            tainted.add("Q")
+    if mode in ("memo", "seenstr"):
+        def has_ptr(t):
+            return any(bp or has_ptr(types[j]) for (j, bp) in t["emb"])
+        e = rng.choice([t for t in types if t["vm"] and not has_ptr(t)] or [t for t in types if not has_ptr(t)])
+        if mode == "memo":
+            src.append("func mkA() interface{} { type L struct{ %s }; return L{%s} }" % (e["name"], mk(e)))
+            src.append("func mkB() interface{} { type L struct{ x int }; return L{} }")
+            pair = ["mkA()", "mkB()"]
+            if rng.random() < 0.5:
+                pair.reverse()
+            main.append("\tla, lb := %s, %s" % (pair[0], pair[1]))
+            main.append("\tprobe(\"L1\", la); probe(\"L2\", lb); probe(\"L1\", la)")
+            main.append("\tprintln(\"eq\", \"L\", la == lb)")
+        else:
+            src.append("func mkC() interface{} { type L struct{ %s }; type W struct{ L }; { type L struct{ W; k int }; return L{} } }" % e["name"])
+            main.append("\tprobe(\"L1\", mkC())")
+        tainted |= {"L1", "L2"}
+    else:
+        # equally named local types stay distinct dynamic types (identity only; no interface assertion involved)
+        src.append("func lA() interface{} { type L struct{ a int }; return L{1} }")
+        src.append("func lB() interface{} { type L struct{ a int }; return L{1} }")
+        main.append("\tprintln(\"local\", lA() == lA(), lA() == lB())")
+        main.append("\tswitch lA().(type) { case interface{ Zq() }: println(\"local\", \"iface\"); default: println(\"local\", \"default\") }")
+    if mode == "canon-embedded":
+        t = types[0]
+        main.append("\t{ var a interface{} = struct{ %s }{}; _, ok := a.(struct{ %s %s }); println(\"canonE\", ok) }" % (t["name"], t["name"], t["name"]))
+        tainted.add("canonE")
+    elif mode == "canon-tag":
+        main.append("\t{ var a interface{} = struct{ a int \"x$b,1,\" }{}; _, ok := a.(struct{ a int \"x\"; b int }); println(\"canonT\", ok) }")
+        tainted.add("canonT")
+    elif mode == "cmp":
+        src.append("type CA struct{ b CB }")
+        src.append("type CB struct{ s []int }")
+        src.append("func ceq(x, y interface{}) (r string) { defer func() { if recover() != nil { r = \"panic\" } }(); if x == y { return \"true\" }; return \"false\" }")
+        main.append("\tprintln(\"cmp\", ceq(CA{}, CA{}), ceq(CB{}, CB{}), ceq([1]CB{}, [1]CB{}))")
+        tainted.add("cmp")
+    else:
+        # identity of unnamed composite types built in different places
+        main.append("\t{ var a interface{} = struct{ a int; b string }{1, \"x\"}; _, ok := a.(struct{ a int; b string }); _, ok2 := a.(struct{ a int; b string \"t\" }); _, ok3 := a.(struct{ b string; a int }); println(\"canon\", ok, ok2, ok3) }")
+        main.append("\t{ var a interface{} = map[string][]int{}; _, ok := a.(map[string][]int); _, ok2 := a.(map[string][]int32); var f interface{} = func(int) string { return \"\" }; _, ok3 := f.(func(int) string); _, ok4 := f.(func(int32) string); println(\"canon2\", ok, ok2, ok3, ok4) }")
+    main.append("}")
+    return "\n".join(src + main) + "\n", tainted
+
+
+def run_programs(chk, tier):
+    from . import progs
+    q = tier != "thorough"
+    counts = {"clean": 40 if q else 700, "amb": 6 if q else 80, "ptrshadow": 5 if q else 60, "fieldhide": 5 if q else 60,
+              "protoname": 4 if q else 50, "namedptr": 4 if q else 50, "memo": 6 if q else 80, "seenstr": 4 if q else 50,
+              "canon-embedded": 2 if q else 20, "canon-tag": 2 if q else 20, "cmp": 3 if q else 30, "recvcopy": 4 if q else 40}
+    jobs, meta = [], []
+    for mode, k in counts.items():
+        for _ in range(k):
+            srcs, tainted = gen_program(chk.rng, mode)
+            variants = ["plain"] if (q or chk.rng.random() < 0.8) else ["plain", "minify"]
+            jobs.append({"id": "p%d_%s" % (len(jobs), mode.replace("-", "_")), "files": {"main.go": srcs}, "variants": variants, "native": True, "timeout": 120})
+            meta.append((mode, srcs, tainted))
+    res = progs.run_jobs(jobs, par=8)
+    nprog = 0
+    for job, r, (mode, srcs, tainted) in zip(jobs, res, meta):
+        nat = progs.observe_native(r["runs"]["native"])
+        if nat[1].startswith("compile-error"):
+            raise RuntimeError("generated program does not compile natively (%s): %s\n%s" % (mode, nat[1], srcs[:3000]))
+        if nat[1] != "exit0":
+            raise RuntimeError("generated program does not run natively (%s): %s" % (mode, nat[1]))
+        for v in job["variants"]:
+            js = progs.observe_js(r["runs"][v])
+            nprog += 1
+            differing = []
+            if js[1] != nat[1] or len(js[0]) != len(nat[0]):
+                differing = None
+            else:
+                differing = [(a, b) for a, b in zip(js[0], nat[0]) if a != b]
+            ntr = len(nat[0])
+            chk.add_case("programs", job["id"] + v + srcs, nontrivial=True,
+                         kindkey="program:%s:%s" % (mode, "same" if differing == [] else "differs"),
+                         sample={"tie": "programs", "op": job["id"], "impl": "\n".join(js[0][:6]), "model": "(native Go) " + "\n".join(nat[0][:6])})
+            chk.evaluations += ntr
+            if differing == []:
+                continue
+            sig = None
+            if differing is not None and mode == "recvcopy":
+                sig = SIG_RECV
+            elif differing is not None and mode in PROG_SIG and all(a.split(" ")[0] in tainted for a, b in differing):
+                sig = PROG_SIG[mode]
+            desc = "ending js=%s native=%s" % (js[1], nat[1]) if differing is None else "; ".join("js[%s] go[%s]" % d for d in differing[:4])
+            chk.add_mismatch("programs", json.dumps({"id": job["id"], "variant": v, "mode": mode, "source": srcs}),
+                             impl=desc, spec="native Go output", signature=sig)
+    chk.extra["programs_run"] = nprog
+
+
 def gen_all_families(rng, tier):
     q = tier != "thorough"
     fams = []
@@ -674,6 +978,7 @@ def run(tier, seed):
     fams = gen_all_families(chk.rng, tier)
     chk.extra["families"] = len(fams)
     run_families(chk, fams, "prelude-types")
+    run_programs(chk, tier)
     return chk.finish()
 
 
